@@ -746,10 +746,13 @@ func openCoroutine(in *Interp) {
 	reg("yield", func(in *Interp, a []Value) []Value {
 		c := in.cur
 		if c == nil {
-			in.indet("yield outside a coroutine")
+			// the main thread cannot be suspended: an error either way (text not compared)
+			in.throw(&Opaque{Kind: "anystring", Rest: "attempt to yield across metamethod/C-call boundary"})
 		}
 		if in.ccalls > 0 {
-			in.indet("yield across a pcall/metamethod/iterator boundary (an error in PUC-Lua 5.1)")
+			// ldo.c lua_yield: "attempt to yield across metamethod/C-call boundary" (whether the text
+			// carries a position is not compared)
+			in.throw(&Opaque{Kind: "anystring", Rest: "attempt to yield across metamethod/C-call boundary"})
 		}
 		c.yieldCh <- coMsg{kind: 0, vals: append([]Value(nil), a...)}
 		select {
